@@ -175,6 +175,23 @@ def one_invariant(enabled, kind):
             @property
             def p(self):
                 return self.x
+    elif kind == "plain_sub":
+        # a plain sub-class (no meta-class) with members of its own, of a class that has an enabled invariant
+        class Base:
+            def __init__(self, x):
+                self.x = x
+
+        def c_base(self):
+            return cond("base", True)
+        Base = icontract.invariant(c_base, enabled=True)(Base)
+
+        class A(Base):
+            def set(self, x):
+                self.x = x
+                return x
+
+            def get(self):
+                return self.x
     else:
         raise ValueError(kind)
     before = snap_vars(A)
